@@ -229,7 +229,10 @@ Lemma conn_tail_spec c other tc oc name prefix c1 o2n blk r (ren : label -> labe
              ++ map ren (filter (fun i => negb (memb i oc)) (inputs other)) /\
   (forall b b0, dget (blocks c1) b = Some b0 -> b <> name -> dget (blocks r) b = Some b0) /\
   (name <> "" -> dget (blocks r) name =
-                 Some (mkBlock (map ren (inputs other)) (canonical_block_gates c1 blk) (map ren (outputs other)))).
+                 Some (mkBlock (map ren (inputs other)) (canonical_block_gates c1 blk) (map ren (outputs other)))) /\
+  (forall b, dmem (blocks r) b = true ->
+             dmem (blocks c1) b = true \/ (exists k, dmem (blocks other) k = true /\ b = (prefix ++ k)%string) \/
+             (b = name /\ name <> "")).
 Proof.
   intros Io H. unfold conn_tail in H; cbv beta iota in H.
   binv H new_outs Hno. binv H c2 H2. binv H keep Hk. binv H new_ins Hni. binv H c3 H3. binv H c4 H4.
@@ -239,27 +242,38 @@ Proof.
   simpl in Hk.
   set (c3 := set_inputs_raw _ _) in H4.
   assert (P4 : gates c4 = gates c1 /\ outputs c4 = outputs c3 /\ inputs c4 = inputs c3 /\
-               forall b b0, dget (blocks c1) b = Some b0 -> dget (blocks c4) b = Some b0).
+               (forall b b0, dget (blocks c1) b = Some b0 -> dget (blocks c4) b = Some b0) /\
+               (forall b, dmem (blocks c4) b = true ->
+                          dmem (blocks c1) b = true \/ exists k, dmem (blocks other) k = true /\ b = (prefix ++ k)%string)).
   { revert H4. apply (foldM_ok_inv _ (fun s => gates s = gates c1 /\ outputs s = outputs c3 /\ inputs s = inputs c3 /\
-               forall b b0, dget (blocks c1) b = Some b0 -> dget (blocks s) b = Some b0)).
-    - intros s kb s' _ (A & B & C & D) Hs. binv Hs u Hu. binv Hs bi Hbi. binv Hs bg Hbg. binv Hs bo Hbo.
-      injection Hs as <-. simpl. repeat split; try assumption.
-      intros b b0 Hb. rewrite dget_dset. destruct (leqb_spec b (prefix ++ fst kb)%string) as [E|_]; [|apply D, Hb].
-      exfalso. unfold check_block_doesnt_exist in Hu. apply D in Hb. unfold dmem in Hu. rewrite <- E, Hb in Hu.
-      discriminate.
-    - repeat split; auto. }
-  destruct P4 as (G4 & O4 & I4 & B4).
+               (forall b b0, dget (blocks c1) b = Some b0 -> dget (blocks s) b = Some b0) /\
+               (forall b, dmem (blocks s) b = true ->
+                          dmem (blocks c1) b = true \/ exists k, dmem (blocks other) k = true /\ b = (prefix ++ k)%string))).
+    - intros s kb s' Hkb (A & B & C & D & D2) Hs. binv Hs u Hu. binv Hs bi Hbi. binv Hs bg Hbg. binv Hs bo Hbo.
+      injection Hs as <-. simpl. split; [assumption|]. split; [assumption|]. split; [assumption|]. split.
+      + intros b b0 Hb. rewrite dget_dset. destruct (leqb_spec b (prefix ++ fst kb)%string) as [E|_]; [|apply D, Hb].
+        exfalso. unfold check_block_doesnt_exist in Hu. apply D in Hb. unfold dmem in Hu. rewrite <- E, Hb in Hu.
+        discriminate.
+      + intros b Hb. rewrite dmem_dset in Hb. apply orb_true_iff in Hb. destruct Hb as [Hb|Hb]; [|apply D2, Hb].
+        apply leqb_eq in Hb. right. exists (fst kb). split; [|exact Hb].
+        apply dmem_keys. apply in_map, Hkb.
+    - split; [reflexivity|]. split; [reflexivity|]. split; [reflexivity|]. split; [auto|]. intros b Hb; left; exact Hb. }
+  destruct P4 as (G4 & O4 & I4 & B4 & B5).
   assert (Hins : inputs c3 = filter (is_input_gate c1) (inputs c)
                               ++ map ren (filter (fun i => negb (memb i oc)) (inputs other))).
   { unfold c3; simpl. reflexivity. }
   destruct (leqb_spec name "") as [En|En]; simpl negb in H; cbv iota in H.
   - injection H as <-. split; [exact G4|]. split; [rewrite O4; reflexivity|]. split; [rewrite I4; exact Hins|].
-    split; [intros b b0 Hb _; apply B4, Hb|]. intros Hne; contradiction.
+    split; [intros b b0 Hb _; apply B4, Hb|]. split; [intros Hne; contradiction|].
+    intros b Hb. destruct (B5 b Hb) as [Hc|Hc]; [left; exact Hc|right; left; exact Hc].
   - binv H bi Hbi. binv H bo Hbo. injection H as <-.
     apply (map_list_ren _ ren _ _ Io) in Hbi. apply (map_list_ren _ ren _ _ Io) in Hbo. subst bi bo.
     simpl. split; [exact G4|]. split; [rewrite O4; reflexivity|]. split; [rewrite I4; exact Hins|]. split.
     + intros b b0 Hb Hne. rewrite dget_dset. destruct (leqb_spec b name) as [E|_]; [contradiction|apply B4, Hb].
-    + intros _. rewrite dget_dset_same. unfold canonical_block_gates. rewrite G4. reflexivity.
+    + split; [intros _; rewrite dget_dset_same; unfold canonical_block_gates; rewrite G4; reflexivity|].
+      intros b Hb. rewrite dmem_dset in Hb. apply orb_true_iff in Hb. destruct Hb as [Hb|Hb].
+      * apply leqb_eq in Hb. right; right. split; assumption.
+      * destruct (B5 b Hb) as [Hc|Hc]; [left; exact Hc|right; left; exact Hc].
 Qed.
 
 (* ------------------------------------------------------------------ *)
@@ -289,6 +303,9 @@ Record ConnSpec (base other : circuit) (tc oc : list label) (right : bool) (name
       forall x, In x bg <-> exists l g, dget (gates other) l = Some g /\ gtyp g <> INPUT /\
                                         copied tc oc right l /\
                                         x = ren_of (build_mapping oc tc []) prefix l;
+  cs_blocks_only : forall b, dmem (blocks r) b = true ->
+      dmem (blocks base) b = true \/ (exists k, dmem (blocks other) k = true /\ b = (prefix ++ k)%string) \/
+      (b = name /\ name <> "");
   (* facts about the arguments that the checks of connect_circuit establish *)
   cs_tc : forall t, In t tc -> has_gate base t = true;
   cs_oc : forall o, In o oc -> has_gate other o = true;
@@ -325,7 +342,7 @@ Proof.
   pose proof (cinv_loop base other tc oc right prefix Hvals Hinj order _ Hnd Hst) as CI.
   simpl in CI. destruct CI as [Io Im Ic Ib If Iy Ik Iu Ibl].
   fold mapping in Io, Ic, Ib, If, Iy, Ik.
-  destruct (conn_tail_spec _ _ _ _ _ _ _ _ _ _ _ Io H) as (Tg & To & Ti & Tb & Tn).
+  destruct (conn_tail_spec _ _ _ _ _ _ _ _ _ _ _ Io H) as (Tg & To & Ti & Tb & Tn & Tbo).
   assert (Hname : dmem (blocks base) name = false).
   { unfold check_block_doesnt_exist in H0. destruct (dmem (blocks base) name); [discriminate|reflexivity]. }
   constructor.
@@ -359,6 +376,7 @@ Proof.
         -- destruct Hcp as [->|Hcp]; [reflexivity|]. apply dmem_false_iff in Hcp. rewrite Hcp. apply orb_true_r.
         -- unfold is_input_gate. rewrite Hg. apply negb_true_iff.
            destruct (gtype_beq (gtyp g) INPUT) eqn:E; [apply gtype_beq_eq in E; contradiction|reflexivity].
+  - intros b Hb. destruct (Tbo b Hb) as [Hc|Hc]; [left; rewrite <- Ibl; exact Hc|right; exact Hc].
   - exact Htc.
   - exact Hoc.
   - exact Hlen.
